@@ -56,6 +56,7 @@ Cmp(e, want) == ("panic" \in DOMAIN e \/ e.res # want) => Mismatch(l, e, [res |-
 InDomain(e) ==
     CASE e.ev = "remove_at" -> e.pos < Len(seqs[e.a])
       [] e.ev \in {"insert_at", "split_at"} -> e.pos <= Len(seqs[e.a])
+      [] e.ev \in {"first", "last"} -> seqs[e.a] # <<>>
       [] OTHER -> TRUE
 
 Step(e) ==
